@@ -12,6 +12,11 @@ def main(tier, args):
             d = dt if (cfg == 0 or tier != "quick") else dt - 1       # quick: the 4-timer configurations one level shallower
             for p in range(np):
                 jobs.append(("timer:%s:cfg%d:p%d" % (e, cfg, p), [exe, "timer", e, str(d), str(cfg), str(p), str(np)]))
+        # heap lane: every insertion order of 6 (quick) / 6,7,8 (thorough) one-shot timers x every single removal
+        jobs.append(("heap:%s:n6" % e, [exe, "heap", e, "6", "0", "1"]))
+        for p in range(4): jobs.append(("heap:%s:n7:p%d" % (e, p), [exe, "heap", e, "7", str(p), "4"]))
+        if tier != "quick":
+            for p in range(8): jobs.append(("heap:%s:n8:p%d" % (e, p), [exe, "heap", e, "8", str(p), "8"]))
         for p in range(np):
             jobs.append(("pool:%s:p%d" % (e, p), [exe, "pool", e, str(dp if tier != "quick" else dp - 1), "0", str(p), str(np)]))
     if args.only: jobs = [j for j in jobs if j[0] == args.only]
@@ -19,5 +24,5 @@ def main(tier, args):
     vf.finish(PID, tier, res, t0,
               rule="BFS over all histories (depth %d; 4-timer configurations and pool one less in the quick tier) of enable/disable/destroy/reinit/advance(0,1,2,3,7 ms)+loop-pass on 3-4 real TimerEvents (persistent and one-shot, intervals 1-5 ms, equal deadlines included) "
                    "with callback scripts that disable/destroy/enable/restart another timer or themselves, and (depth %d) of doEvery/doAfter/cancel/cleanup/advance on the real TimerPool with callbacks that cancel, clean up and add timers; "
-                   "virtual monotonic clock; both back-ends; reference = per-timer deadline model checked inside every callback (not early, deadline order, enabled, alive) and after every pass (nothing due left unfired); ASan with the timer record pool de-pooled" % (dt, dp),
+                   "plus a heap lane: every enable order of 6 and 7 (thorough also 8) one-shot timers with distinct deadlines x every single disable/destroy, 1 ms steps; virtual monotonic clock; both back-ends; reference = per-timer deadline model checked inside every callback (not early, deadline order, enabled, alive) and after every pass (nothing due left unfired); ASan with the timer record pool de-pooled" % (dt, dp),
               assumptions=["timers with equal deadlines may fire in either order (DESIGN 1.7)", "clock reads are interposed at clock_gettime (libstdc++ steady_clock)"])
